@@ -260,7 +260,62 @@ def x_seq(ctx, case):
     return any(e.get("id") is not None for e in events)
 
 
-SUBCHECKS = {"seq": x_seq, "two_runs": x_two_runs}
+def x_callbacks(ctx, case):
+    """(a) an on_test callback that reacts to a finished test by ending the run on the very consumer that called it
+    (a fail-fast driver): every test is still reported once - the finished one not a second time, the ones still
+    running as incomplete; (b) StreamSummary mixed into a class after CopyStreamResult (what
+    ExtendedToStreamDecorator itself is): tests still running when the run stops are flushed as in StreamSummary."""
+    import testtools
+    events = case["events"]
+    got = []
+    holder = {}
+
+    def on_test(d):
+        got.append((d["id"], d["status"]))
+        if case["stop_on"] == d["status"] and not holder.get("stopped"):
+            holder["stopped"] = True
+            holder["s"].stopTestRun()
+    s = holder["s"] = testtools.StreamToDict(on_test)
+    s.startTestRun()
+    fed = 0
+    for e in events:
+        if holder.get("stopped"):
+            break
+        fed += 1
+        s.status(**ev_kwargs(e))
+    if not holder.get("stopped"):
+        s.stopTestRun()
+    # the same events up to there, the run ended from OUTSIDE afterwards: the same reports, each once
+    ref = []
+    s2 = testtools.StreamToDict(lambda d: ref.append((d["id"], d["status"])))
+    s2.startTestRun()
+    for e in events[:fed]:
+        s2.status(**ev_kwargs(e))
+    s2.stopTestRun()
+    ctx.check(sorted(map(repr, got)) == sorted(map(repr, ref)), "dict.finals-in-order",
+              lambda: {"a callback ended the run from inside on_test; reported": got,
+                       "the run ended from outside after the same events": ref, "events": events[:fed]})
+
+    class Tee(testtools.CopyStreamResult, testtools.StreamSummary):
+        def __init__(self, targets):
+            testtools.CopyStreamResult.__init__(self, targets)
+            testtools.StreamSummary.__init__(self)
+    plain = testtools.StreamSummary()
+    tee = Tee([recorders.StreamRecorder()])
+    for r in (plain, tee):
+        r.startTestRun()
+        for e in events:
+            r.status(**ev_kwargs(e))
+        r.stopTestRun()
+    same = (tee.testsRun == plain.testsRun and len(tee.errors) == len(plain.errors)
+            and tee.wasSuccessful() == plain.wasSuccessful())
+    ctx.check(same, "summary.testsRun",
+              lambda: {"class Tee(CopyStreamResult, StreamSummary)": (tee.testsRun, len(tee.errors), tee.wasSuccessful()),
+                       "StreamSummary": (plain.testsRun, len(plain.errors), plain.wasSuccessful()), "events": events})
+    return True
+
+
+SUBCHECKS = {"seq": x_seq, "two_runs": x_two_runs, "callbacks": x_callbacks}
 
 
 def alphabet():
@@ -340,3 +395,6 @@ def run(ctx):
         else:
             ctx.execute("seq", {"events": [random_event(rng) for _ in range(rng.randint(0, 30))],
                                 "positional": rng.random() < 0.3})
+            if rng.random() < 0.15:
+                ctx.execute("callbacks", {"events": [random_event(rng) for _ in range(rng.randint(1, 20))],
+                                          "stop_on": rng.choice(["fail", "success", "skip"])})
